@@ -185,4 +185,25 @@ PROPS = {
             rapid("c04", "TestPropFraming", quick=(1500, 6), thorough=(25000, 14), shrinktime="20s"),
         ],
     },
+    "C06": {
+        "level": "fault_enumeration",
+        "rule": "(1) client byte streams: grammar-generated commands of all 34 kinds (kit/cmdgen; strings as atom/quoted/sync/non-sync "
+                "literal; oversized buffered literals and over-limit APPENDs), byte/token mutations of them (insert hostile chunks, "
+                "delete, flip, truncate, duplicate, swap, repeat) and raw bytes, after a drawn login/select prefix, ended by half-close, "
+                "close or reset; (2) disconnect sweep: for each generated valid transcript (LOGIN with literals or AUTHENTICATE "
+                "exchange, SELECT, APPEND literal, 1-4 commands incl. IDLE, LOGOUT or open IDLE) the client end is closed and, "
+                "separately, reset after EVERY byte offset (exhaustive per transcript); (3) deterministic nesting probe in a child "
+                "process with a 32 MiB stack cap: 10 recursive constructs x depths {999,1000,1001,5000,200000} x {pre-auth, selected}. "
+                "Invariants per connection: no panic report in the server log, the server closes its end, no serve/IDLE goroutine "
+                "survives, the session's Close is called exactly once, no >4096-octet literal is delivered as a buffered argument "
+                "(grammar mode), Append never sees a literal above the limit. Non-trivial: input that is grammar-derived or reaches a "
+                "handler beyond LOGIN/SELECT; every disconnect transcript; distinct by hash of (ending, input).",
+        "assumptions": ["a server end still open 10 s after the peer is gone (in-memory pipe) is read as stuck/spinning; the failure report carries the goroutine dump",
+                        "resident memory of the nesting probe is reported, not judged"],
+        "units": [
+            plain("c06", "TestReplayNesting"),
+            rapid("c06", "TestPropInput", quick=(2500, 5), thorough=(40000, 12)),
+            rapid("c06", "TestPropDisconnect", quick=(3, 6), thorough=(40, 14)),
+        ],
+    },
 }
